@@ -211,7 +211,12 @@ func genC12(t *rapid.T) c12Case {
 func (c c12Case) build() (base, full bq.Query, keys []bq.OrderKey) {
 	all := bq.AllBindings(c.Clauses)
 	base.From, base.Clauses, base.Global = c.From, c.Clauses, c.Global
-	if c.Grouped && len(all) > 0 {
+	if c.Grouped && len(all) > 1 && len(c.KeyIdx)%2 == 0 {
+		// two grouping keys, selected in the opposite order of the GROUP BY list
+		base.Proj = append(base.Proj, bq.Proj{Binding: all[1]}, bq.Proj{Binding: all[0]})
+		base.GroupBy = []string{all[0], all[1]}
+		base.Proj = append(base.Proj, bq.Proj{Binding: all[len(all)-1], Alias: "?cnt", Op: "count"})
+	} else if c.Grouped && len(all) > 0 {
 		k := all[0]
 		p := bq.Proj{Binding: k}
 		if len(c.AsAlias) > 0 && c.AsAlias[0] {
